@@ -112,7 +112,10 @@ def g_wccn(draw):
     X = X + (r.normal(0, 3, (K, F)) * X.std(axis=0))[cls]
     perm = np.array(gen.permutation(draw, n))
     X, cls = X[perm], cls[perm]
-    pool = [0, 1, 2, 3, 4, 5, -1, -2, -7, 10, 11, 100, 1000003, -2**31, 2**40, 17, 42]
+    # small, negative, non-contiguous and huge ids, including huge ids that differ by one (client numbers): equality
+    # of labels is exact integer equality
+    pool = [0, 1, 2, 3, 4, 5, -1, -2, -7, 10, 11, 100, 1000003, 1000004, 1000005, 100234, 100235, -250007, -250008,
+            -2**31, -2**31 + 1, 2**40, 2**40 + 1, 2**62, 2**62 + 1, 17, 42]
     style = gen.choice(draw, ["arbitrary", "arbitrary", "shifted", "identity", "reversed"])
     if style == "identity":
         names = list(range(K))
